@@ -704,6 +704,7 @@ func runCase(cs poolsim.Case, coqWanted bool) (coqOut string, failOut *failure, 
 				continue
 			}
 			var txn types.V2Transaction
+			firstCall := false // the call is made before the pool is read again
 			m := poolsim.Meta{SignedAt: tip.Height, POK: true}
 			basis := w.Info(tip).Index
 			one := types.Siacoins(1)
@@ -777,6 +778,57 @@ func runCase(cs poolsim.Case, coqWanted bool) (coqOut string, failOut *failure, 
 					ins[0], ins[1] = ins[1], ins[0]
 				}
 				txn = w.Env.V2SpendMulti(tip.FullState, ins, one)
+			case "after-block":
+				// pool [parent, child]; a block confirms only the parent; V2TransactionSet(tip, child) is the
+				// very next call that touches the pool (no query in between)
+				free := w.Spendable(w.Info(tip), types.Siacoins(200))
+				used := map[types.SiacoinOutputID]bool{}
+				for _, x := range p2 {
+					for _, in := range x.SiacoinInputs {
+						used[in.Parent.ID] = true
+					}
+				}
+				for _, x := range p1 {
+					for _, in := range x.SiacoinInputs {
+						used[in.ParentID] = true
+					}
+				}
+				var in0 *types.SiacoinElement
+				for i := range free {
+					if !used[free[i].ID] {
+						in0 = &free[i]
+						break
+					}
+				}
+				if in0 == nil {
+					continue
+				}
+				par := w.Env.V2Spend(tip.FullState, *in0, one, types.Siacoins(50), w.Env.Addr, 0, 7)
+				kid := w.Env.V2Spend(tip.FullState, par.EphemeralSiacoinOutput(1), one, one, w.Env.Payees[0], 0, 8)
+				if _, err, _ := r.Submit2(basis, []types.V2Transaction{par, kid}, []poolsim.Meta{m, m}); err != nil {
+					continue
+				}
+				// the pooled copy of the child is what a wallet would rebroadcast
+				_, cur := r.Pool()
+				found := false
+				for _, x := range cur {
+					if x.ID() == kid.ID() {
+						txn, found = x, true
+					}
+				}
+				if !found {
+					continue
+				}
+				blk := poolsim.AssembleBlock(tip, nil, []types.V2Transaction{par})
+				r.DeferNext = true
+				if !r.Adopt(blk) {
+					r.DeferNext = false
+					continue
+				}
+				// (the caller's copy is valid for the old tip, which stays the basis)
+				tip = r.Tip
+				firstCall = true
+				st["txset-first-call-after-block"]++
 			case "parent-mined":
 				// parent pooled at the basis, child built on its ephemeral output, parent mined, then the
 				// set for the child alone is requested with the old basis
@@ -859,25 +911,35 @@ func runCase(cs poolsim.Case, coqWanted bool) (coqOut string, failOut *failure, 
 				continue
 			}
 			// expected parents: the closure over pooled v2 transactions through created outputs
-			made := map[types.SiacoinOutputID]int{}
-			for i, p := range p2 {
-				for j := range p.SiacoinOutputs {
-					made[p.SiacoinOutputID(p.ID(), j)] = i
-				}
-			}
 			anc := map[int]bool{}
-			var walk func(t types.V2Transaction)
-			walk = func(t types.V2Transaction) {
-				for _, in := range t.SiacoinInputs {
-					if i, ok := made[in.Parent.ID]; ok && !anc[i] {
-						anc[i] = true
-						walk(p2[i])
+			closure := func() {
+				made := map[types.SiacoinOutputID]int{}
+				for i, p := range p2 {
+					for j := range p.SiacoinOutputs {
+						made[p.SiacoinOutputID(p.ID(), j)] = i
 					}
 				}
+				var walk func(t types.V2Transaction)
+				walk = func(t types.V2Transaction) {
+					for _, in := range t.SiacoinInputs {
+						if i, ok := made[in.Parent.ID]; ok && !anc[i] {
+							anc[i] = true
+							walk(p2[i])
+						}
+					}
+				}
+				walk(txn)
 			}
-			walk(txn)
+			if !firstCall {
+				closure()
+			}
 			snap := poolsim.EncV2(txn)
 			idx, set, err, pan := r.TxSet(basis, txn, m)
+			if firstCall {
+				// the pool is read only now: what it reports after the call is what the call had to use
+				p1, p2 = r.Pool()
+				closure()
+			}
 			st["txset:"+stp.Flavor]++
 			what := fmt.Sprintf("V2TransactionSet(%s, pool of %d v1 + %d v2, %d pooled ancestors)", stp.Flavor, len(p1), len(p2), len(anc))
 			if pan {
@@ -936,8 +998,56 @@ func runCase(cs poolsim.Case, coqWanted bool) (coqOut string, failOut *failure, 
 			}
 			one := types.Siacoins(1)
 			var txn types.Transaction
+			firstCall := false
 			m := poolsim.Meta{SignedAt: tip.Height, POK: true}
 			switch stp.Flavor {
+			case "after-block":
+				// pool [parent, child] (v1); a block confirms only the parent; UnconfirmedParents(child) is
+				// the next call that touches the pool
+				if tip.Height+2 >= w.Env.Net.HardforkV2.RequireHeight {
+					continue
+				}
+				free := w.Spendable(w.Info(tip), types.Siacoins(200))
+				used := map[types.SiacoinOutputID]bool{}
+				for _, x := range p2 {
+					for _, in := range x.SiacoinInputs {
+						used[in.Parent.ID] = true
+					}
+				}
+				for _, x := range p1 {
+					for _, in := range x.SiacoinInputs {
+						used[in.ParentID] = true
+					}
+				}
+				var in0 *types.SiacoinElement
+				for i := range free {
+					if !used[free[i].ID] {
+						in0 = &free[i]
+						break
+					}
+				}
+				if in0 == nil {
+					continue
+				}
+				par := w.Env.V1Spend(tip.FullState, in0.ID, in0.SiacoinOutput.Value, one, types.Siacoins(50), w.Env.Addr, 0, 1)
+				kid := w.Env.V1Spend(tip.FullState, par.SiacoinOutputID(1), par.SiacoinOutputs[1].Value, one, one, w.Env.Payees[0], 0, 2)
+				if _, err, _ := r.Submit1([]types.Transaction{par, kid}, []poolsim.Meta{m, m}); err != nil {
+					continue
+				}
+				// the replay prefix of v1 signatures changes at the hardfork heights: stay inside one window
+				if a := w.AbsV1(kid, m); tip.Height+2 < a.Lo || tip.Height+2 > a.Hi {
+					continue
+				}
+				txn = kid
+				blk := poolsim.AssembleBlock(tip, []types.Transaction{par}, nil)
+				r.DeferNext = true
+				if !r.Adopt(blk) {
+					r.DeferNext = false
+					continue
+				}
+				tip = r.Tip
+				firstCall = true
+				st["parents-first-call-after-block"]++
 			case "pooled":
 				if len(p1) == 0 {
 					continue
@@ -1002,23 +1112,32 @@ func runCase(cs poolsim.Case, coqWanted bool) (coqOut string, failOut *failure, 
 				continue
 			}
 			made := map[types.SiacoinOutputID]int{}
-			for i, p := range p1 {
-				for j := range p.SiacoinOutputs {
-					made[p.SiacoinOutputID(j)] = i
-				}
-			}
 			anc := map[int]bool{}
-			var walk func(t types.Transaction)
-			walk = func(t types.Transaction) {
-				for _, in := range t.SiacoinInputs {
-					if i, ok := made[in.ParentID]; ok && !anc[i] {
-						anc[i] = true
-						walk(p1[i])
+			closure := func() {
+				for i, p := range p1 {
+					for j := range p.SiacoinOutputs {
+						made[p.SiacoinOutputID(j)] = i
 					}
 				}
+				var walk func(t types.Transaction)
+				walk = func(t types.Transaction) {
+					for _, in := range t.SiacoinInputs {
+						if i, ok := made[in.ParentID]; ok && !anc[i] {
+							anc[i] = true
+							walk(p1[i])
+						}
+					}
+				}
+				walk(txn)
 			}
-			walk(txn)
+			if !firstCall {
+				closure()
+			}
 			ps, pan := r.Parents(txn, m)
+			if firstCall {
+				p1, p2 = r.Pool()
+				closure()
+			}
 			st["parents:"+stp.Flavor]++
 			what := fmt.Sprintf("UnconfirmedParents(%s, pool of %d v1 + %d v2)", stp.Flavor, len(p1), len(p2))
 			if pan {
@@ -1122,15 +1241,15 @@ func genPlan(g *rng.R, t *chaingen.Tree, pairsBudget int) []poolsim.Step {
 		plan = append(plan, poolsim.Step{Kind: "submit", Flavor: subs[g.Intn(len(subs))], Seed: g.U64()})
 		switch g.Intn(3) {
 		case 0:
-			plan = append(plan, poolsim.Step{Kind: "txset", Flavor: []string{"pooled", "new-child", "child-of-v1", "stale-child", "diamond", "parent-mined"}[g.Intn(6)], Seed: g.U64()})
+			plan = append(plan, poolsim.Step{Kind: "txset", Flavor: []string{"pooled", "new-child", "child-of-v1", "stale-child", "diamond", "parent-mined", "after-block"}[g.Intn(7)], Seed: g.U64()})
 		case 1:
-			plan = append(plan, poolsim.Step{Kind: "parents", Flavor: []string{"pooled", "new-child", "child-of-v2", "diamond"}[g.Intn(4)], Seed: g.U64()})
+			plan = append(plan, poolsim.Step{Kind: "parents", Flavor: []string{"pooled", "new-child", "child-of-v2", "diamond", "after-block"}[g.Intn(5)], Seed: g.U64()})
 		}
 	}
-	for _, f := range []string{"pooled", "new-child", "child-of-v1", "stale-child", "diamond", "parent-mined", "parent-mined"} {
+	for _, f := range []string{"pooled", "new-child", "child-of-v1", "stale-child", "diamond", "parent-mined", "parent-mined", "after-block", "after-block"} {
 		plan = append(plan, poolsim.Step{Kind: "txset", Flavor: f, Seed: g.U64()})
 	}
-	for _, f := range []string{"pooled", "new-child", "child-of-v2", "diamond"} {
+	for _, f := range []string{"pooled", "new-child", "child-of-v2", "diamond", "after-block"} {
 		plan = append(plan, poolsim.Step{Kind: "parents", Flavor: f, Seed: g.U64()})
 	}
 	return plan
